@@ -267,31 +267,87 @@ Definition selfrec_graph : graph := [mkN (KObj [(1, 0)]) None [] []].
 Lemma unguarded_diverges_selfrec : forall fuel, walk_unguarded (validate_children selfrec_graph) fuel 0 = None.
 Proof. induction fuel as [|f IH]; [reflexivity|]. simpl. rewrite IH. reflexivity. Qed.
 
-(* ---- Find ---- *)
+(* ---- Find (with its visited set): total on every graph ---- *)
 
-Definition ranked (g : graph) (rk : nat -> nat) : Prop :=
-  forall n nd, get g n = Some nd ->
-    (forall u, n_user nd = Some u -> rk u < rk n) /\ (forall b, In b (n_inh nd) -> rk b < rk n).
-
-Lemma gfind_terminates g rk : ranked g rk -> forall fuel n x, rk n < fuel -> gfind g fuel n x <> None.
+Lemma gfind_terminates g x : forall fuel seen n,
+  unvis (List.length g) seen < fuel ->
+  exists s r, gfind g fuel seen n x = Some (s, r) /\ incl seen s.
 Proof.
-  intro Hr. induction fuel as [|f IH]; intros n x Hlt; [lia|].
-  simpl. destruct (get g n) as [nd|] eqn:Eg; [|discriminate].
-  destruct (Hr n nd Eg) as [Hu Hb].
-  assert (Hown : (match n_user nd with Some u => gfind g f u x | None => Some (assoc x (obj_fields (n_kind nd))) end) <> None).
-  { destruct (n_user nd) as [u|] eqn:Eu; [|discriminate]. apply IH. specialize (Hu u eq_refl). lia. }
-  destruct (match n_user nd with Some u => gfind g f u x | None => Some (assoc x (obj_fields (n_kind nd))) end) as [[c|]|]; try discriminate; [|contradiction].
-  assert (Hall : forall b, In b (n_inh nd) -> rk b < f) by (intros b Hin; specialize (Hb b Hin); lia).
-  clear Hb. induction (n_inh nd) as [|b r IHr]; [discriminate|].
-  assert (Hbf := IH b x (Hall b (or_introl eq_refl))).
-  destruct (gfind g f b x) as [[c|]|]; try discriminate; [|contradiction].
-  apply IHr. intros b' Hin. apply Hall. right. exact Hin.
+  induction fuel as [|f IH]; intros seen n Hf; [lia|].
+  simpl. destruct (mem n seen) eqn:Em.
+  - exists seen, None. split; [reflexivity|apply incl_refl].
+  - destruct (get g n) as [nd|] eqn:Eg.
+    + assert (Hn : n < List.length g) by (apply nth_error_Some; unfold get in Eg; rewrite Eg; discriminate).
+      assert (Hlt := unvis_cons_lt (List.length g) n seen Hn Em).
+      assert (Hown : exists s r, (match n_user nd with
+                                  | Some u => gfind g f (n :: seen) u x
+                                  | None => Some (n :: seen, assoc x (obj_fields (n_kind nd)))
+                                  end) = Some (s, r) /\ incl (n :: seen) s).
+      { destruct (n_user nd) as [u|].
+        - apply IH. lia.
+        - eexists _, _. split; [reflexivity|apply incl_refl]. }
+      destruct Hown as [s1 [r1 [Ho Hi1]]]. rewrite Ho.
+      destruct r1 as [c|].
+      * exists s1, (Some c). split; [reflexivity|]. intros y Hy. apply Hi1. right. exact Hy.
+      * assert (Hgo : forall l s0, incl (n :: seen) s0 ->
+                 exists s r, (fix go (s : list nat) (l : list nat) : option (list nat * option nat) :=
+                   match l with
+                   | [] => Some (s, None)
+                   | b :: r => match gfind g f s b x with
+                               | None => None
+                               | Some (s', Some c) => Some (s', Some c)
+                               | Some (s', None) => go s' r
+                               end
+                   end) s0 l = Some (s, r) /\ incl s0 s).
+        { induction l as [|b l IHl]; intros s0 Hi0.
+          - exists s0, None. split; [reflexivity|apply incl_refl].
+          - assert (Hb : unvis (List.length g) s0 < f).
+            { assert (H := unvis_incl (List.length g) (n :: seen) s0 Hi0). lia. }
+            destruct (IH s0 b Hb) as [s' [r' [Hg Hi']]]. rewrite Hg. destruct r' as [c|].
+            + exists s', (Some c). split; [reflexivity|exact Hi'].
+            + destruct (IHl s' (incl_tran Hi0 Hi')) as [s2 [r2 [Hg2 Hi2]]].
+              exists s2, r2. split; [exact Hg2|exact (incl_tran Hi' Hi2)]. }
+        destruct (Hgo (n_inh nd) s1 Hi1) as [s2 [r2 [Hg2 Hi2]]].
+        exists s2, r2. split; [exact Hg2|]. intros y Hy. apply Hi2, Hi1. right. exact Hy.
+    + exists (n :: seen), None. split; [reflexivity|]. intros y Hy. right. exact Hy.
 Qed.
 
-(* a type extending itself: Find recurses for ever on a name it does not have *)
-Definition selfext_graph : graph := [mkN (KObj [(1, 1)]) None [] [0]; mkN KPrim None [] []].
+Lemma gfind_total g n x : exists s r, gfind g (find_fuel g) [] n x = Some (s, r).
+Proof.
+  destruct (gfind_terminates g x (find_fuel g) [] n (unvis_any_lt _ [])) as [s [r [H _]]].
+  exists s, r. exact H.
+Qed.
 
-Lemma gfind_diverges_selfext : forall fuel, gfind selfext_graph fuel 0 7 = None.
+(* two types that extend / reference each other: the lookup of a name neither has
+   answers "not found" *)
+Definition mutext_graph : graph :=
+  [mkN (KObj [(1, 2)]) None [] [1]; mkN (KObj [(2, 2)]) None [] [0]; mkN KPrim None [] []].
+
+Lemma gfind_mutext : exists s, gfind mutext_graph (find_fuel mutext_graph) [] 0 7 = Some (s, None).
+Proof. eexists. vm_compute. reflexivity. Qed.
+
+(* ---- hasTag has no guard ---- *)
+
+Definition ranked (bases : nat -> list nat) (user : nat -> option nat) (rk : nat -> nat) : Prop :=
+  forall n, (forall u, user n = Some u -> rk u < rk n) /\ (forall b, In b (bases n) -> rk b < rk n).
+
+Lemma ghastag_terminates has bases user rk : ranked bases user rk ->
+  forall fuel n, rk n < fuel -> ghastag has bases user fuel n <> None.
+Proof.
+  intro Hr. induction fuel as [|f IH]; intros n Hlt; [lia|].
+  simpl. destruct (has n); [discriminate|].
+  destruct (Hr n) as [Hu Hb].
+  assert (Hall : forall b, In b (bases n) -> rk b < f) by (intros b Hin; specialize (Hb b Hin); lia).
+  clear Hb. induction (bases n) as [|b r IHr].
+  - destruct (user n) as [u|] eqn:Eu; [|discriminate]. apply IH. specialize (Hu u eq_refl). lia.
+  - assert (Hbf := IH b (Hall b (or_introl eq_refl))).
+    destruct (ghastag has bases user f b) as [[|]|]; try discriminate; [|contradiction].
+    apply IHr. intros b' Hin. apply Hall. right. exact Hin.
+Qed.
+
+(* a type that extends itself *)
+Lemma ghastag_diverges_selfext :
+  forall fuel, ghastag (fun _ => false) (fun _ => [0]) (fun _ => None) fuel 0 = None.
 Proof. induction fuel as [|f IH]; [reflexivity|]. simpl. rewrite IH. reflexivity. Qed.
 
 (* ---------------------------------------------------------------------- *)
@@ -365,10 +421,17 @@ Proof.
   - apply result_has_resolves. assert (Hf := map_filter_nil _ _ _ Hb n Hin). apply negb_false_iff in Hf. exact Hf.
 Qed.
 
-Lemma http_ok d s m h : dsl_errors_http m h = [] -> validate_http d s m h = [] ->
-  forall r, In r (http_refs d s m h) -> is_tag r = false -> resolves r.
+Lemma tags_ok m h : validate_tags m h = [] -> forall t, In t (tags_of h) -> resolves (RTag m t).
 Proof.
-  unfold dsl_errors_http, validate_http, http_refs. intros Hd Hv r Hin Htag.
+  unfold validate_tags. intros H t Ht. simpl. destruct (tags_of h) as [|t0 ts] eqn:Et; [contradiction|].
+  destruct (r_shape (m_result m)) as [|attrs| |]; try discriminate.
+  assert (Hf := map_filter_nil _ _ _ H t Ht). apply negb_false_iff in Hf. apply mem_In. exact Hf.
+Qed.
+
+Lemma http_ok d s m h : dsl_errors_http m h = [] -> validate_http d s m h = [] ->
+  forall r, In r (http_refs d s m h) -> resolves r.
+Proof.
+  unfold dsl_errors_http, validate_http, http_refs. intros Hd Hv r Hin.
   apply app_nil_both in Hd. destruct Hd as [Hdb Hdr].
   apply app_nil_both in Hv. destruct Hv as [_ Hv].
   apply app_nil_both in Hv. destruct Hv as [Hpath Hv].
@@ -377,7 +440,8 @@ Proof.
   apply app_nil_both in Hv. destruct Hv as [Hcook Hv].
   apply app_nil_both in Hv. destruct Hv as [Hbody Hv].
   apply app_nil_both in Hv. destruct Hv as [Hmp Hv].
-  apply app_nil_both in Hv. destruct Hv as [Hresp Herr].
+  apply app_nil_both in Hv. destruct Hv as [Hresp Hv].
+  apply app_nil_both in Hv. destruct Hv as [Htags Herr].
   apply in_app_or in Hin. destruct Hin as [Hin|Hin]; [|apply in_app_or in Hin; destruct Hin as [Hin|Hin]; [|apply in_app_or in Hin; destruct Hin as [Hin|Hin]]].
   - apply in_map_iff in Hin. destruct Hin as [n [<- Hn]].
     apply in_app_or in Hn. destruct Hn as [Hn|Hn]; [exact (missing_resolves m _ (map_nil _ _ Hpath) n Hn)|].
@@ -398,7 +462,9 @@ Proof.
     assert (Hr := flat_map_nil _ _ Hresp rs Hrs).
     apply in_app_or in Hin. destruct Hin as [Hin|Hin].
     + apply in_map_iff in Hin. destruct Hin as [n [<- Hn]]. exact (response_ok m rs Hr n Hn).
-    + destruct (rs_tag rs); [|contradiction]. destruct Hin as [<-|[]]. discriminate.
+    + destruct (rs_tag rs) as [t|] eqn:Etag; [|contradiction]. destruct Hin as [<-|[]].
+      apply (tags_ok m h Htags). unfold tags_of. apply in_flat_map. exists rs. split; [exact Hrs|].
+      rewrite Etag. left. reflexivity.
   - apply in_flat_map in Hin. destruct Hin as [er [Her Hin]].
     exact (eresponse_ok _ er (flat_map_nil _ _ Herr er Her) r Hin).
 Qed.
@@ -452,12 +518,12 @@ Proof.
   unfold required_errors, reachable_nodes. destruct (walk_roots (validate_children g) (graph_fuel g) [] roots) as [vis|]; [|discriminate].
   intros H n nd x Hin Hg [fs Hk] Hx. inversion H as [H0]. assert (Hn := flat_map_nil _ _ H0 n Hin).
   unfold missing_required in Hn. rewrite Hg, Hk in Hn. assert (Hf := filter_nil _ _ Hn x Hx). cbv beta in Hf. unfold resolves.
-  destruct (gfind g (find_fuel g) n x) as [[c|]|]; try discriminate. exists c. reflexivity.
+  destruct (gfind g (find_fuel g) [] n x) as [[s [c|]]|]; try discriminate. exists s, c. reflexivity.
 Qed.
 
-Theorem refs_resolve d : validate d = [] -> forall r, In r (refs d) -> is_tag r = false -> resolves r.
+Theorem refs_resolve d : validate d = [] -> forall r, In r (refs d) -> resolves r.
 Proof.
-  intros Hv r Hin Htag. apply validate_nil in Hv. destruct Hv as [Hd Hv].
+  intros Hv r Hin. apply validate_nil in Hv. destruct Hv as [Hd Hv].
   unfold dsl_errors in Hd. apply app_nil_both in Hd. destruct Hd as [Hdq Hd]. apply app_nil_both in Hd. destruct Hd as [Hdt Hds].
   unfold validation_errors in Hv. apply app_nil_both in Hv. destruct Hv as [Hve Hv]. apply app_nil_both in Hv. destruct Hv as [Hvs Hv].
   apply app_nil_both in Hv. destruct Hv as [Hvr Hva].
@@ -489,7 +555,7 @@ Proof.
     { apply in_flat_map in Hin. destruct Hin as [q [Hq Hin]]. apply in_flat_map in Hin. destruct Hin as [n [Hn Hin]].
       apply in_map_iff in Hin. destruct Hin as [c [<- Hc]]. exact (Hcred q n c Hq Hn Hc). }
     destruct (m_http m) as [h|]; [|contradiction].
-    exact (http_ok d s m h Hmh Hmhv r Hin Htag).
+    exact (http_ok d s m h Hmh Hmhv r Hin).
   - apply in_app_or in Hin. destruct Hin as [Hin|Hin].
     + apply in_flat_map in Hin. destruct Hin as [n [Hn Hin]].
       destruct (get (d_graph d) n) as [nd|] eqn:Eg; [|contradiction].
@@ -579,7 +645,7 @@ Lemma type_keyed_memo_skips :
   flat_map (attr_errors twice_attrs) (reachable_nodes twice_graph [0]) = [EView 9].
 Proof. repeat split; vm_compute; reflexivity. Qed.
 
-(* ---- the references that are NOT checked: concrete accepted designs ---- *)
+(* ---- references that used to go unchecked: the same designs are now rejected ---- *)
 
 (* Result { a } ; Response(202, Tag("zzz","v")) ; Response(200): names: a = 1, zzz = 2 *)
 Definition tag_method : method :=
@@ -588,19 +654,11 @@ Definition tag_method : method :=
 Definition tag_design : design :=
   mkD [] [] [] [] [] [mkS [] [] [] [tag_method]] [mkN (KObj [(1, 1)]) None [] []; mkN KPrim None [] []] [0] [].
 
-Lemma tag_design_accepted : validate tag_design = [].
+Lemma tag_design_rejected : validate tag_design = [ETag 2].
 Proof. vm_compute. reflexivity. Qed.
 
-Lemma tag_design_dangling : In (RTag tag_method 2) (refs tag_design) /\ ~ resolves (RTag tag_method 2).
-Proof.
-  split.
-  - vm_compute. tauto.
-  - simpl. intros [H|[]]. discriminate.
-Qed.
-
-(* Payload { mm: MapOf(String, O) }, O = Type { x; Required("zzz") }: the map element
-   is finalized but never validated. nodes: 0 payload, 1 mm, 2 key, 3 elem (type O),
-   4 O's attribute, 5 x. names: mm = 1, x = 2, zzz = 3 *)
+(* Payload { mm: MapOf(String, O) }, O = Type { x; Required("zzz") }. nodes: 0 payload,
+   1 mm, 2 key, 3 elem (type O), 4 O's attribute, 5 x. names: mm = 1, x = 2, zzz = 3 *)
 Definition reqmap_graph : graph :=
   [ mkN (KObj [(1, 1)]) None [] [];
     mkN (KMap 2 3) None [] [];
@@ -611,13 +669,8 @@ Definition reqmap_graph : graph :=
 Definition reqmap_design : design :=
   mkD [] [] [] [] [] [mkS [] [] [] [mkM (SObj [1]) [] (mkR SEmpty None None) [] [] None]] reqmap_graph [0] [].
 
-Lemma reqmap_accepted : validate reqmap_design = [].
+Lemma reqmap_rejected : validate reqmap_design = [ERequired 3].
 Proof. vm_compute. reflexivity. Qed.
-
-Lemma reqmap_dangling :
-  (exists v, finalize_attr reqmap_graph (graph_fuel reqmap_graph) [] 0 = Some v /\ In 3 v) /\
-  gfind reqmap_graph (find_fuel reqmap_graph) 3 3 = Some None.
-Proof. split; [eexists; split; [vm_compute; reflexivity|vm_compute; tauto]|vm_compute; reflexivity]. Qed.
 
 (* ---------------------------------------------------------------------- *)
 (* Part 3: misplaced calls                                                *)
